@@ -155,22 +155,32 @@ impl<T: Eq + Hash, S: BuildHasher> ShardedSet<T, S> {
         let (hash, shard) = self.hash_and_shard(q);
         // Assume load is low and try to take lock for writing.
         // We don't faff around with upgradability right now.
+        #[cfg(isographlabs_isograph_verif)]
+        crate::verif_hooks::point("shard.try_write", shard as *const _ as usize);
         let shard = if let Some(write_lock) = shard.try_write() {
             write_lock
         } else {
             // Write contention.  Try reading first to see if the entry already exists.
+            #[cfg(isographlabs_isograph_verif)]
+            crate::verif_hooks::point("shard.read_lock", shard as *const _ as usize);
             if let Some(t) = shard.read().get(hash, |other| q == other.borrow()) {
                 // Already exists.
                 return Ok(t.clone());
             }
             // Unconditionally write lock.
+            #[cfg(isographlabs_isograph_verif)]
+            crate::verif_hooks::point("shard.write_lock", shard as *const _ as usize);
             shard.write()
         };
         // Now check for the data.  We need to do this even if we already
         // checked in the write contention case above.  We don't use an
         // upgradable read lock because those are exclusive from one another
         // just like write locks.
+        #[cfg(isographlabs_isograph_verif)]
+        crate::verif_hooks::point("shard.lookup_w", 0);
         if let Some(t) = shard.get(hash, |other| q == other.borrow()) {
+            #[cfg(isographlabs_isograph_verif)]
+            crate::verif_hooks::point("shard.unlock_found", 0);
             return Ok(t.clone());
         }
         Err(InsertLock {
@@ -187,6 +197,8 @@ impl<T: Eq + Hash, S: BuildHasher> ShardedSet<T, S> {
         Q: ?Sized + Hash + Eq,
     {
         let (hash, shard) = self.hash_and_shard(q);
+        #[cfg(isographlabs_isograph_verif)]
+        crate::verif_hooks::point("shard.get_read_lock", shard as *const _ as usize);
         shard
             .read()
             .get(hash, |other| q == other.borrow())
@@ -197,6 +209,8 @@ impl<T: Eq + Hash, S: BuildHasher> ShardedSet<T, S> {
     pub fn unchecked_insert(&self, t: T) {
         let build_hasher = &self.build_hasher;
         let (hash, shard) = self.hash_and_shard(&t);
+        #[cfg(isographlabs_isograph_verif)]
+        crate::verif_hooks::point("shard.unchecked_insert", shard as *const _ as usize);
         shard.write().insert(hash, t, |v| hash_one(build_hasher, v));
     }
 }
